@@ -1043,9 +1043,13 @@ class Canonicaliser:
                                 continue
                             mapping[ps[0]] = recv
                             ps = ps[1:]
-                        ok = len(call.args) <= len(ps) and not h.args.vararg and not h.args.kwarg
+                        ok = (len(call.args) <= len(ps) or h.args.vararg is not None) and not h.args.kwarg \
+                            and not any(isinstance(a, ast.Starred) for a in call.args)
                         for p_, a in zip(ps, call.args):
                             mapping[p_] = a
+                        if h.args.vararg is not None:
+                            # *args of the context manager: the tuple of the remaining arguments
+                            mapping[h.args.vararg.arg] = ast.Tuple(elts=list(call.args[len(ps):]), ctx=ast.Load())
                         for k in call.keywords:
                             if k.arg in ps:
                                 mapping[k.arg] = k.value
@@ -1058,7 +1062,8 @@ class Canonicaliser:
                                     mapping[p_] = dflt[p_]
                                 else:
                                     ok = False
-                        if not ok or not all(_simple(v) for v in mapping.values()):
+                        if not ok or not all(_simple(v) or (isinstance(v, ast.Tuple) and all(_simple(x) for x in v.elts))
+                                             for v in mapping.values()):
                             out.append(st)
                             continue
                         tag = f"{h.name.lstrip('_')}"
@@ -1070,6 +1075,12 @@ class Canonicaliser:
                         yi = next(i for i, b in enumerate(body) if isinstance(b, ast.Expr) and isinstance(b.value, ast.Yield))
                         pre = [substitute_stmt(clone(b), mapping) for b in body[:yi]]
                         post = [substitute_stmt(clone(b), mapping) for b in body[yi + 1:]]
+                        if h.args.vararg is not None:
+                            # `getattr(x, "append")(*(v,))` left by the substitution reads as x.append(v)
+                            from .astutil import fold_static as _fold_cm
+                            holder = ast.Module(body=pre + post, type_ignores=[])
+                            _fold_cm(holder)
+                            pre, post = holder.body[:len(pre)], holder.body[len(pre):]
                         mid = []
                         if st.items[0].optional_vars is not None:
                             yv = body[yi].value.value
